@@ -587,6 +587,11 @@ def _flush_collector(
     return 0
 
 
+#: ``log_extra`` keys a peer may send that would collide with the positional
+#: parameters of ``Message.__init__`` when forwarded as ``**extra``.
+_RESERVED_LOG_EXTRA_KEYS = frozenset({"self", "level", "message"})
+
+
 def _dispatch_log_or_error(
     batch: pa.RecordBatch,
     custom_metadata: pa.KeyValueMetadata | None,
@@ -619,21 +624,29 @@ def _dispatch_log_or_error(
             wire_batch_logger.debug("Classify batch: zero-row, no log keys -> data")
         return False
 
-    level_str = level_bytes.decode()
-    message_str = message_bytes.decode()
+    # Everything below is peer-supplied and may come from a non-Python
+    # implementation: a malformed log batch must be delivered as best we can
+    # or dropped, never turned into a failure of the call that carried it.
+    level_str = level_bytes.decode(errors="replace")
+    message_str = message_bytes.decode(errors="replace")
 
-    # Extract extra info (traceback, exception_type, etc.)
+    # Extract extra info (traceback, exception_type, etc.).  Only a JSON
+    # *object* is usable; any other document, undecodable bytes
+    # (UnicodeDecodeError and JSONDecodeError are both ValueError) or a
+    # pathologically nested one (RecursionError) is ignored.
     raw_extra_data: dict[str, object] = {}
     raw_extra = custom_metadata.get(LOG_EXTRA_KEY)
     if raw_extra is not None:
-        with contextlib.suppress(json.JSONDecodeError):
-            raw_extra_data = json.loads(raw_extra.decode())
+        with contextlib.suppress(ValueError, RecursionError):
+            decoded_extra = json.loads(raw_extra.decode())
+            if isinstance(decoded_extra, dict):
+                raw_extra_data = decoded_extra
 
     # Extract request_id from batch metadata
     request_id_bytes = custom_metadata.get(REQUEST_ID_KEY)
     request_id = ""
     if request_id_bytes is not None:
-        request_id = request_id_bytes.decode()
+        request_id = request_id_bytes.decode(errors="replace")
 
     if wire_batch_logger.isEnabledFor(logging.DEBUG):
         wire_batch_logger.debug(
@@ -659,15 +672,24 @@ def _dispatch_log_or_error(
         raise RpcError(error_type, message_str, traceback_str, request_id=request_id, error_kind=error_kind)
 
     # Non-exception log message → invoke callback
-    # Coerce all extra values to str for Message(**extra)
-    extra: dict[str, str] = {k: str(v) for k, v in raw_extra_data.items()}
+    try:
+        level = Level(level_str)
+    except ValueError:
+        # A level this client does not know (newer or foreign peer): the
+        # batch is still a log batch, so consume it and drop the message.
+        if wire_batch_logger.isEnabledFor(logging.DEBUG):
+            wire_batch_logger.debug("Dropping log batch with unknown level %r", level_str[:40])
+        return True
+    # Coerce all extra values to str for Message(**extra); keys that collide
+    # with Message's own parameters cannot be passed as keyword extras.
+    extra: dict[str, str] = {k: str(v) for k, v in raw_extra_data.items() if k not in _RESERVED_LOG_EXTRA_KEYS}
     # Extract server_id from top-level metadata into extra
     server_id_bytes = custom_metadata.get(SERVER_ID_KEY)
     if server_id_bytes is not None:
-        extra["server_id"] = server_id_bytes.decode()
+        extra["server_id"] = server_id_bytes.decode(errors="replace")
     if request_id:
         extra["request_id"] = request_id
-    msg = Message(Level(level_str), message_str, **extra)
+    msg = Message(level, message_str, **extra)
     if on_log is not None:
         on_log(msg)
     return True
